@@ -55,20 +55,26 @@ var accessesIrrelevantReviewed = map[string]bool{
 // of test ti made in run r, how many of them failed, and which calls they were
 // (ok=false when the window lies beyond what the injector recorded).
 func ownAccesses(r faultRun, ti int) (made, failed int, names []string, ok bool) {
+	made, failed, names, _, ok = ownAccessFlags(r, ti)
+	return
+}
+
+// ownAccessFlags: as ownAccesses, plus which of the own accesses failed.
+func ownAccessFlags(r faultRun, ti int) (made, failed int, names []string, flags []bool, ok bool) {
 	ws := r.own[ti]
 	if len(ws) == 0 {
-		return 0, 0, nil, true
+		return 0, 0, nil, nil, true
 	}
 	w := ws[len(ws)-1]
 	if w.to > len(r.failed) {
-		return w.to - w.from, 0, nil, false
+		return w.to - w.from, 0, nil, nil, false
 	}
 	for _, f := range r.failed[w.from:w.to] {
 		if f {
 			failed++
 		}
 	}
-	return w.to - w.from, failed, r.calls[w.from:w.to], true
+	return w.to - w.from, failed, r.calls[w.from:w.to], r.failed[w.from:w.to], true
 }
 
 // setting: how the state in which a test is run is produced.
@@ -92,10 +98,14 @@ type ownRule struct {
 	cold       setting
 	deps       map[string]dependence
 	irrelevant map[string]map[string]bool // setting -> names with a data-independent PASS although all own accesses failed
+	accDeps    map[string]dependence      // setting|test|own access number -> does the data of that one access enter the verdict
+	hOwn       map[string][]string        // setting|test -> own accesses of the healthy run (nil: it panicked or hung)
+	tolerated  map[string]map[string]bool // test -> own accesses whose failure left a PASS standing (data-independent, reviewed name)
 }
 
 func newOwnRule(c *gal.Ctx, e *suiteEnv, stats map[string]int) *ownRule {
-	o := &ownRule{c: c, e: e, stats: stats, seed: c.Rng.Int63(), deps: map[string]dependence{}, irrelevant: map[string]map[string]bool{}}
+	o := &ownRule{c: c, e: e, stats: stats, seed: c.Rng.Int63(), deps: map[string]dependence{}, irrelevant: map[string]map[string]bool{},
+		accDeps: map[string]dependence{}, hOwn: map[string][]string{}, tolerated: map[string]map[string]bool{}}
 	o.cold = setting{"cold platform, dependencies run healthy inside the same Test.Run", func(*test.Test) bool { e.reset(); return true }}
 	return o
 }
@@ -117,9 +127,52 @@ func (o *ownRule) dependence(s setting, t *test.Test) dependence {
 	if d, ok := o.deps[key]; ok {
 		return d
 	}
+	d := o.perturb(s, t, -1, accessesIrrelevantReviewed[t.Name])
+	o.deps[key] = d
+	return d
+}
+
+// accessDependence: the same question for ONE own access (the j-th, counted from
+// 1 within the evaluation of the check): every other access is healthy, this
+// one succeeds but returns perturbed data.
+func (o *ownRule) accessDependence(s setting, t *test.Test, j int) dependence {
+	key := fmt.Sprintf("%s|%s|%d", s.name, t.Name, j)
+	if d, ok := o.accDeps[key]; ok {
+		return d
+	}
+	d := o.perturb(s, t, j, redundantSources[t.Name])
+	o.accDeps[key] = d
+	return d
+}
+
+// healthyOwn: the accesses the check of t itself makes in a healthy run in setting s.
+func (o *ownRule) healthyOwn(s setting, t *test.Test) []string {
+	key := s.name + "|" + t.Name
+	if n, ok := o.hOwn[key]; ok {
+		return n
+	}
+	var names []string
+	if s.prep(t) {
+		ti := o.e.index[t]
+		h := o.e.execHW([]*test.Test{t}, false, &faultHW{base: o.e.plat, target: ti})
+		if !h.hung && !h.panicked {
+			_, _, names, _ = ownAccesses(h, ti)
+			names = append([]string{}, names...)
+		}
+	}
+	o.hOwn[key] = names
+	return names
+}
+
+// perturb runs the experiment: only < 0: every selection (all own accesses at once,
+// then each one alone); only = j > 0: the j-th own access alone.  full = false: only
+// the two bounded transformations (low bits flipped, all zero).  The answer decides
+// the verdict only for the reviewed names (for any other name a PASS after failed own
+// accesses is reported either way, the experiment just says why it matters), and the
+// unbounded fills put garbage into whatever length field a check of changed code parses.
+func (o *ownRule) perturb(s setting, t *test.Test, only int, full bool) dependence {
 	ti := o.e.index[t]
 	var d dependence
-	defer func() { o.deps[key] = d }()
 	if !s.prep(t) {
 		return d
 	}
@@ -130,9 +183,20 @@ func (o *ownRule) dependence(s setting, t *test.Test) dependence {
 	base := outcomeOf(h, ti)
 	made, _, names, _ := ownAccesses(h, ti)
 	budget := 4096 + 16*h.n
-	for v := 0; v < nVariants; v++ {
-		for sel := 0; sel <= made; sel++ {
-			if sel == 1 && made == 1 {
+	lo, hi := 0, made
+	if only > 0 {
+		if only > made {
+			return d
+		}
+		lo, hi = only, only
+	}
+	nv := nVariants
+	if !full {
+		nv = 2
+	}
+	for v := 0; v < nv; v++ {
+		for sel := lo; sel <= hi; sel++ {
+			if only < 0 && sel == 1 && made == 1 {
 				continue // same run as sel = 0
 			}
 			if !s.prep(t) {
@@ -194,19 +258,18 @@ func (o *ownRule) judge(s setting, t *test.Test, mode, k int, r faultRun, idx in
 	if r.hung || r.panicked || r.final[ti] != test.ResultPass {
 		return false
 	}
-	made, failed, names, ok := ownAccesses(r, ti)
-	if !ok || made == 0 || failed != made {
+	made, failed, names, flags, ok := ownAccessFlags(r, ti)
+	if !ok || made == 0 || failed == 0 {
 		return false
+	}
+	if failed != made {
+		return o.judgePartial(s, t, mode, k, r, idx, names, flags)
 	}
 	o.stats["pass_with_every_own_access_failed"]++
 	dep := o.dependence(s, t)
 	d := ownDescr{Test: t.Name, Setting: s.name, Pattern: patName(mode), K: k, Calls: r.n, Own: names, Depend: &dep,
 		Expected: "INTERNAL_ERROR or FAIL (anything but PASS)"}
-	stored := []string{}
-	for _, dp := range test.DepsForVerif(t) {
-		stored = append(stored, fmt.Sprintf("%s=%v", dp.Name, r.init[o.e.index[dp]]))
-	}
-	d.Stored = strings.Join(stored, ", ")
+	d.Stored = o.storedDeps(t, r)
 	site := "pkg/test check " + t.Name
 	switch {
 	case dep.Dependent:
@@ -223,6 +286,93 @@ func (o *ownRule) judge(s setting, t *test.Test, mode, k int, r faultRun, idx in
 	}
 	o.irrelevant[s.name][t.Name] = true
 	return false
+}
+
+func (o *ownRule) storedDeps(t *test.Test, r faultRun) string {
+	stored := []string{}
+	for _, dp := range test.DepsForVerif(t) {
+		stored = append(stored, fmt.Sprintf("%s=%v", dp.Name, r.init[o.e.index[dp]]))
+	}
+	return strings.Join(stored, ", ")
+}
+
+type partialDescr struct {
+	Test     string      `json:"test"`
+	Setting  string      `json:"setting"`
+	Pattern  string      `json:"pattern"`
+	K        int         `json:"k"`
+	Calls    int         `json:"calls_in_run"`
+	Own      []string    `json:"accesses_made_by_the_check_itself"`
+	Failed   []bool      `json:"which_of_them_failed"`
+	Access   string      `json:"failed_access_judged,omitempty"`
+	Depend   *dependence `json:"dependence_experiment_on_that_access,omitempty"`
+	Stored   string      `json:"stored_results_before_the_run,omitempty"`
+	Expected string      `json:"expected"`
+}
+
+// judgePartial: the check of t made several accesses, SOME of them failed (an
+// hwapi error was handed to the check while it was executing) and the test is
+// reported PASS.  "A test is reported as passed only if its check ran and
+// returned success without an internal error, even under faults": the checks
+// turn hwapi errors into internal errors, so a PASS here means that the check
+// dropped an error.  That is a violation when the verdict is a function of the
+// data the failed access would have returned (decided by the perturbation
+// experiment on that single access: a PASS was then issued without the
+// information it rests on), and also when the experiment finds the access
+// data-independent but the check is not one of the reviewed names whose
+// failed accesses are known not to enter the verdict (redundant ACPI table
+// sources, opportunistic data-segment copies of fit.NewEntry).
+func (o *ownRule) judgePartial(s setting, t *test.Test, mode, k int, r faultRun, idx int, names []string, flags []bool) bool {
+	o.stats["pass_with_some_own_access_failed"]++
+	hnames := o.healthyOwn(s, t)
+	d := partialDescr{Test: t.Name, Setting: s.name, Pattern: patName(mode), K: k, Calls: r.n, Own: names, Failed: flags,
+		Stored: o.storedDeps(t, r), Expected: "INTERNAL_ERROR (anything but PASS): the check was handed an hwapi error"}
+	site := "pkg/test check " + t.Name
+	first := ""
+	for j, f := range flags {
+		if !f {
+			continue
+		}
+		if first == "" {
+			first = fmt.Sprintf("own access %d (%s)", j+1, names[j])
+		}
+		// the same access as in the healthy run (same position, same call): ask the experiment
+		if j < len(hnames) && hnames[j] == names[j] {
+			dep := o.accessDependence(s, t, j+1)
+			if dep.Dependent {
+				d.Access, d.Depend = fmt.Sprintf("own access %d (%s)", j+1, names[j]), &dep
+				o.c.OracleFail(idx, fmt.Sprintf("%q is reported PASS although %s of its check failed (%s, pattern %q k=%d; own accesses: %s), and the verdict depends on what that access returns: %s",
+					t.Name, d.Access, s.name, patName(mode), k, describeOwn(names, flags), dep.Evidence), site, d)
+				return true
+			}
+		}
+	}
+	if !redundantSources[t.Name] {
+		d.Access = first
+		o.c.OracleFail(idx, fmt.Sprintf("%q is reported PASS although %s of its check failed (%s, pattern %q k=%d; own accesses: %s); no perturbation of what the failed accesses return changed the outcome, but the check is not on the reviewed list of checks that may keep a PASS after a failed access",
+			t.Name, first, s.name, patName(mode), k, describeOwn(names, flags)), site, d)
+		return true
+	}
+	if o.tolerated[t.Name] == nil {
+		o.tolerated[t.Name] = map[string]bool{}
+	}
+	for j, f := range flags {
+		if f {
+			o.tolerated[t.Name][names[j]] = true
+		}
+	}
+	return false
+}
+
+func describeOwn(names []string, flags []bool) string {
+	out := make([]string, len(names))
+	for i, n := range names {
+		out[i] = n
+		if flags[i] {
+			out[i] += " FAILED"
+		}
+	}
+	return strings.Join(out, ", ")
 }
 
 // partBAlone runs every test alone on a used platform (see the file comment).
@@ -301,6 +451,7 @@ func partBAlone(c *gal.Ctx, e *suiteEnv, stats map[string]int, o *ownRule) {
 					continue
 				}
 				idx := e.addGraphCase(c, "suite_graph_alone", []*test.Test{t}, false, r, d)
+				e.addFaultCase(c, "suite_fault_hw_alone", []*test.Test{t}, r, p.mode, p.k, d)
 				stats[tag+"result_"+t.Result.String()]++
 				// runner side of the setting: nothing but the check of t is evaluated, and only
 				// when every implemented dependency is stored as PASS
